@@ -213,8 +213,8 @@ impl Check for C01 {
     }
     fn phases(&self, tier: Tier) -> Vec<Phase> {
         match tier {
-            Tier::Quick => vec![Phase::random("structure-profile", 6_000, 2048).batch(100).watchdog(30_000)],
-            Tier::Thorough => vec![Phase::random("structure-profile", 150_000, 2048).batch(200).watchdog(30_000)],
+            Tier::Quick => vec![Phase::random("structure-profile", 30_000, 2048).batch(100).watchdog(30_000)],
+            Tier::Thorough => vec![Phase::random("structure-profile", 400_000, 2048).batch(200).watchdog(30_000)],
         }
     }
     fn describe(&self, _phase: usize, tape: &[u8]) -> String {
